@@ -366,6 +366,43 @@ fn try_alt(
     let mut best = (0usize, 0usize);
     let all = match_slots(&sl, frames, 0, 0, &mut best);
     if !all {
+        // One frame too many, sitting exactly where a oneway request was served, and everything else
+        // in place: the oneway request was answered (with something the model does not predict, e.g.
+        // an empty closing reply) - whatever else the diagnosis below makes of the shifted stream.
+        if frames.len() >= 1 {
+            let items: Vec<&ExpItem> = sl
+                .iter()
+                .filter_map(|s| match s {
+                    Slot::Req(i) => Some(*i),
+                    _ => None,
+                })
+                .collect();
+            for k in 0..frames.len() {
+                let mut fewer: Vec<Value> = frames.to_vec();
+                let extra = fewer.remove(k);
+                let mut b = (0usize, 0usize);
+                if !match_slots(&sl, &fewer, 0, 0, &mut b) {
+                    continue;
+                }
+                let before: i64 = if k > 0 { items.get(k - 1).map_or(-1, |i| i.owner as i64) } else { -1 };
+                let after: i64 = items.get(k).map_or(model.msgs.len() as i64, |i| i.owner as i64);
+                let oneway_between = (0..model.msgs.len() as i64)
+                    .filter(|m| *m > before && *m < after)
+                    .find(|m| owner_view(model, *m as usize).map_or(false, |v| v.oneway));
+                if let Some(m) = oneway_between {
+                    out.push(viol(
+                        "C04",
+                        "oneway-answered",
+                        format!(
+                            "message #{} carries oneway:true; a reply that belongs to no other request was written where it was served: {}",
+                            m,
+                            short(&extra)
+                        ),
+                    ));
+                }
+                break;
+            }
+        }
         let (si, fi) = best;
         // first mismatch: slot si vs frame fi
         let slot_item: Option<&ExpItem> = sl[si..].iter().find_map(|s| match s {
@@ -387,6 +424,23 @@ fn try_alt(
                             it.reply
                         ),
                     ));
+                    // a call that the library itself answers (service interface, unknown interface /
+                    // method) and that is met with silence: the service interface does not tell the truth
+                    {
+                        let kind = expect_kind(cfg, owner_view(model, it.owner));
+                        if kind == "service" || kind == "routing" {
+                            out.push(viol(
+                                "C03",
+                                "service-call-unanswered",
+                                format!(
+                                    "message #{} ({}) is answered by the library itself, yet nothing was written for it and the connection stayed open; expected {:?}",
+                                    it.owner,
+                                    owner_view(model, it.owner).map(|v| v.method.clone()).unwrap_or_default(),
+                                    it.reply
+                                ),
+                            ));
+                        }
+                    }
                     // where did the request go instead? If the connection counts as upgraded although
                     // no call of this alternative upgrades it, the request was handed to an upgraded
                     // handler (or to nobody) instead of the interface its method names
@@ -425,6 +479,20 @@ fn try_alt(
                                 kind, it.owner
                             ),
                         ));
+                        let ek = expect_kind(cfg, owner_view(model, it.owner));
+                        if ek == "service" || ek == "routing" {
+                            out.push(viol(
+                                "C03",
+                                "service-call-unanswered",
+                                format!(
+                                    "message #{} ({}) is answered by the library itself, yet the connection was ended ({}) without its reply; expected {:?}",
+                                    it.owner,
+                                    owner_view(model, it.owner).map(|v| v.method.clone()).unwrap_or_default(),
+                                    kind,
+                                    it.reply
+                                ),
+                            ));
+                        }
                     } else {
                         out.push(viol(
                             "C01",
